@@ -19,7 +19,7 @@ sys.path.insert(0, os.path.join(os.path.dirname(__file__), "..", "..", "tools"))
 import vlib
 
 ENGINE = "race"
-SPIN_SITES = {"spin_wait", "h_await", "c_spin", "h_fire", "h_cwait", "k_wspin", "k_wspin2", "k_cspin", "k_gspin"}
+SPIN_SITES = {"spin_wait", "h_await", "h_lockw", "c_spin", "h_fire", "h_cwait", "k_wspin", "k_wspin2", "k_cspin", "k_gspin"}
 
 
 # ----------------------------------------------------------------------------- scenarios
@@ -47,8 +47,9 @@ def gen_scenarios(tier):
     for guard in (0, 1):
         add(comp="canary", mode="", guard=guard)
     # create_basic_sender (C++20 driver): safe callback invoked twice by A (the 2nd call is certainly late) vs stop
-    for a, b in [(1, 1), (1, 0), (0, 1)]:
-        add(comp="cbs", mode="", a=a, b=b)
+    # lk = 1: built with the harness lock factory (schedule point in front of every lock acquisition)
+    for a, b, lk in [(1, 1, 0), (1, 0, 0), (0, 1, 0), (1, 1, 1), (0, 1, 1), (1, 0, 1)]:
+        add(comp="cbs", mode="", a=a, b=b, lk=lk, mut=0)
     return out
 
 
@@ -57,7 +58,8 @@ COMPONENTS = collections.OrderedDict([
     ("doc", dict(label="detach_on_cancel", spec="DetachOnCancel", live=True)),
     ("sor", dict(label="stop_on_request", spec="StopOnRequest", live=True)),
     ("canary", dict(label="canary", spec="Canary", live=True)),
-    ("cbs", dict(label="create_basic_sender", spec="CreateBasicSender", live=True, notouch=True, cxx20=True)),
+    ("cbs", dict(label="create_basic_sender", spec="CreateBasicSender", live=True, notouch=True, cxx20=True,
+                 spec_mutation="stop callback tests finished() before taking the lock, no re-check under the lock")),
 ])
 
 
@@ -322,6 +324,13 @@ def run(ctx):
             jobs.append((comp, "notouch", dict(area="race", module=mod + "MC", cfg=mod + "NoTouch.cfg", env={"SCENARIOS": csp},
                                                must_hold=False, workers=1, timeout=900)))
 
+    for comp, info in COMPONENTS.items():
+        if info.get("spec_mutation") and any(s["comp"] == comp for s in scns):
+            msp = os.path.join(ctx.work, "scn_%s_mut.json" % comp)
+            json.dump([dict(s, mut=1) for s in scns if s["comp"] == comp], open(msp, "w"))
+            jobs.append((comp, "mut", dict(area="race", module=info["spec"] + "MC", cfg=info["spec"] + "Mut.cfg",
+                                           env={"SCENARIOS": msp}, must_hold=False, workers=1, timeout=900)))
+
     def mc(job):
         kw = dict(job[2])
         return vlib.model_check(ctx, kw.pop("area"), kw.pop("module"), **kw)
@@ -332,6 +341,13 @@ def run(ctx):
         if err:
             raise err
     res = {(jb[0], jb[1]): r for jb, (r, err) in results}
+    for (comp, kind), r in res.items():
+        if kind == "mut":
+            if r["kind"] != "invariant":
+                raise vlib.Broken("spec-level mutation of %s (%s) is not rejected by its invariants: %s"
+                                  % (comp, COMPONENTS[comp]["spec_mutation"], r["kind"]))
+            rep.note("%s: spec-level mutation '%s' violates %s (as it must)" % (COMPONENTS[comp]["spec"],
+                     COMPONENTS[comp]["spec_mutation"], r["violated"]))
     for comp, info in COMPONENTS.items():
         if (comp, "mc") not in res:
             continue
